@@ -107,7 +107,8 @@ CHECKS = {
             "additivity over all pairs, rotation(a, axis) for all 124 lattice axis directions (orthogonal, det 1, axis fixed, trace, turn angle, "
             "additivity, opposite axis) and for unit vectors rounded to 5-6 digits, scaling, reflection for every lattice mirror (five real and complex representatives each) of {-2..2}^3 / {-1,0,1}^4 against the exact Householder map "
             "(involution, fixed points, agreement with mirror), from_points over all general-position 4-frames of the 3x3 lattice (both directions) "
-            "and 5-frames in 3D, from_points_and_conics over lattice-point triples of four conics.",
+            "and 5-frames in 3D, from_points_and_conics over lattice-point triples of four conics; affine_transform(matrix, offset) over every 2x2 matrix with entries in {-1,0,2} (thorough {-1,0,1,2}; singular ones included), "
+            "3x3 samples, every lattice offset, ten argument forms / dtype mixes (positional, keyword, lists, int / float / complex): matrix entries, dtype kind, arguments unchanged, images of lattice points and directions.",
             NOTE, TECH, "DESIGN.md section 5, C08"),
     "C19": ("Every pairing of 21 left operand kinds (all index-type patterns of rank<=3 incl. free axes, finite/infinite/non-normalised points, "
             "collections, lines, planes, quadrics, transformations) x 11 right operand kinds x 8 operations x operator/ufunc form is executed and compared "
